@@ -93,6 +93,15 @@ func (rs *RunSummary) Finish(wall time.Duration) int {
 	for what, n := range rs.knownSeen {
 		fmt.Printf("KNOWN-FINDING: property=%s %s (paths=%d)\n", rs.Property, what, n)
 	}
+	seenM := map[string]bool{}
+	var uniq []string
+	for _, m := range rs.machinery {
+		if !seenM[m] {
+			seenM[m] = true
+			uniq = append(uniq, m)
+		}
+	}
+	rs.machinery = uniq
 	for _, m := range rs.machinery {
 		fmt.Printf("MACHINERY: %s\n", m)
 	}
